@@ -2,6 +2,7 @@ package props
 
 import (
 	"bytes"
+	"go/format"
 	"fmt"
 	"go/token"
 	"os"
@@ -79,72 +80,135 @@ func c01Signature(src []byte) (string, []byte) {
 		}
 		return fails
 	}, 400)
-	preds := textPredicates(red)
-	preds = append(preds, c01LayoutPredicates(red)...)
+	// causal layout families (established by deleting the comment) take precedence over the
+	// merely textual predicates
+	preds := c01LayoutPredicates(red)
+	if len(preds) == 0 {
+		preds = textPredicates(red)
+	}
 	sort.Strings(preds)
 	return sigOf("roundtrip", preds), red
 }
 
-// c01LayoutPredicates names the go/printer layout situations that were root-caused on the
-// unchanged tree (see DESIGN.md section 6). They are evaluated on the reduced witness.
-func c01LayoutPredicates(src []byte) []string {
-	var ps []string
-	lines := strings.Split(string(src), "\n")
-	// a comment line that directly precedes a line starting with ")" and is indented less than or
-	// equal to that ")" line's content
-	for i := 0; i+1 < len(lines); i++ {
-		if !strings.HasPrefix(strings.TrimLeft(lines[i+1], "\t"), ")") {
-			continue
-		}
-		// line i ends an own-line comment? (a //-comment, or the last line of a block comment)
-		k := i
-		t := strings.TrimLeft(lines[k], "\t")
-		if !strings.HasPrefix(t, "//") && !strings.HasPrefix(t, "/*") {
-			if !strings.HasSuffix(strings.TrimSpace(t), "*/") {
-				continue
+// layoutCandidate is a layout situation found in a witness together with the lines that make it up.
+type layoutCandidate struct {
+	name     string
+	from, to int // line range (inclusive) of the comment that constitutes the situation
+}
+
+// commentOnlyLines marks the lines that hold nothing but comment text.
+func commentOnlyLines(lines []string) []bool {
+	out := make([]bool, len(lines))
+	inBlock := false
+	for i, l := range lines {
+		t := strings.TrimSpace(l)
+		switch {
+		case inBlock:
+			out[i] = true
+			if strings.Contains(t, "*/") {
+				inBlock = false
+				if !strings.HasSuffix(t, "*/") {
+					out[i] = false
+				}
 			}
-			for k >= 0 && !strings.Contains(lines[k], "/*") {
-				k--
+		case strings.HasPrefix(t, "//"):
+			out[i] = true
+		case strings.HasPrefix(t, "/*"):
+			if k := strings.Index(t, "*/"); k < 0 {
+				inBlock = true
+				out[i] = true
+			} else if k == len(t)-2 {
+				out[i] = true
 			}
-			if k < 0 {
-				continue
-			}
-			t = strings.TrimLeft(lines[k], "\t")
-			if !strings.HasPrefix(t, "/*") {
-				continue
-			}
-		}
-		ind := len(lines[k]) - len(t)
-		ind2 := len(lines[i+1]) - len(strings.TrimLeft(lines[i+1], "\t"))
-		if ind <= ind2 {
-			ps = append(ps, "comment-before-rparen-unindented")
-			break
 		}
 	}
-	// an own-line comment block that is directly followed by a case /
-	// default line that is indented LESS than the comment ("hanging" comment at the end of a
-	// clause body): gofmt keeps the body-level indentation because of the comment's original
-	// column; dst attaches the comment to the next clause and prints it at clause level
-	for i := 1; i+1 < len(lines); i++ {
-		t := strings.TrimLeft(lines[i], "\t")
-		if !(strings.HasPrefix(t, "//") || strings.HasPrefix(t, "/*")) {
+	return out
+}
+
+func indentOf(l string) int { return len(l) - len(strings.TrimLeft(l, "\t")) }
+
+// c01LayoutCandidates finds the go/printer layout situations that were root-caused on the
+// unchanged tree (DESIGN.md section 6): each is a comment whose printed indentation depends on its
+// original column, which dst does not record.
+func c01LayoutCandidates(src []byte) []layoutCandidate {
+	var cs []layoutCandidate
+	lines := strings.Split(string(src), "\n")
+	co := commentOnlyLines(lines)
+	for i := 0; i < len(lines); i++ {
+		if !co[i] || (i > 0 && co[i-1]) {
 			continue
 		}
-		if pt := strings.TrimLeft(lines[i-1], "\t"); strings.HasPrefix(pt, "//") || strings.HasPrefix(pt, "/*") {
-			continue // not the first line of the comment block
-		}
 		j := i
-		for j < len(lines) && (strings.HasPrefix(strings.TrimLeft(lines[j], "\t"), "//") || strings.HasPrefix(strings.TrimLeft(lines[j], "\t"), "/*") || strings.HasSuffix(strings.TrimSpace(lines[j]), "*/")) {
+		for j < len(lines) && co[j] {
 			j++
 		}
 		if j >= len(lines) {
 			break
 		}
-		nt := strings.TrimLeft(lines[j], "\t")
-		if (strings.HasPrefix(nt, "case ") || strings.HasPrefix(nt, "default:")) && len(lines[j])-len(nt) < len(lines[i])-len(t) {
-			ps = append(ps, "hanging-comment-before-case")
-			break
+		next := strings.TrimLeft(lines[j], "\t")
+		ci, ni := indentOf(lines[i]), indentOf(lines[j])
+		switch {
+		case strings.HasPrefix(next, ")") && ci <= ni:
+			// an own-line comment directly before a closing ")" that gofmt leaves unindented
+			cs = append(cs, layoutCandidate{"comment-before-rparen-unindented", i, j - 1})
+		case (strings.HasPrefix(next, "case ") || strings.HasPrefix(next, "default:")) && ni < ci:
+			// a comment at body indentation directly before the next case / default clause
+			cs = append(cs, layoutCandidate{"hanging-comment-before-case", i, j - 1})
+		case strings.HasPrefix(strings.TrimSpace(lines[i]), "//line ") && ci == 0 && ni > 0:
+			cs = append(cs, layoutCandidate{"line-directive-col1-in-indented-code", i, j - 1})
 		}
+	}
+	return cs
+}
+
+// c01LayoutPredicates keeps, of the candidates, those that are causal: deleting the comment makes
+// the (still canonical) witness round-trip. If none is causal the candidates are not used.
+func c01LayoutPredicates(src []byte) []string {
+	cands := c01LayoutCandidates(src)
+	lines := strings.Split(string(src), "\n")
+	byName := map[string][]layoutCandidate{}
+	var names []string
+	for _, c := range cands {
+		if _, ok := byName[c.name]; !ok {
+			names = append(names, c.name)
+		}
+		byName[c.name] = append(byName[c.name], c)
+	}
+	sort.Strings(names)
+	cures := func(drop []layoutCandidate) bool {
+		del := map[int]bool{}
+		for _, c := range drop {
+			for k := c.from; k <= c.to; k++ {
+				del[k] = true
+			}
+		}
+		var kept []string
+		for k, l := range lines {
+			if !del[k] {
+				kept = append(kept, l)
+			}
+		}
+		trial := []byte(strings.Join(kept, "\n"))
+		if g, err := format.Source(trial); err == nil {
+			trial = g // deleting a comment can leave a blank line gofmt would drop
+		}
+		if !corpus.Canonical(trial) {
+			return false
+		}
+		fails := true
+		fw.Try(func() { fails = c01FailsAny(trial) })
+		return !fails
+	}
+	var ps []string
+	// a single family explains the failure if deleting all of its comments cures it
+	for _, n := range names {
+		if cures(byName[n]) {
+			ps = append(ps, n)
+		}
+	}
+	if len(ps) == 0 && len(names) > 1 && cures(cands) {
+		// only all families together explain it
+		ps = append(ps, names...)
 	}
 	return ps
 }
